@@ -2,7 +2,10 @@ package props
 
 import (
 	"fmt"
+	"strings"
 	"time"
+	"verif/census"
+	"verif/core"
 
 	"github.com/gdamore/tcell/v2"
 	"github.com/gdamore/tcell/v2/terminfo"
@@ -96,6 +99,36 @@ func (l *liveScreen) startPoll(sentinel rune) func() ([]NEv, bool) {
 			return nil, false
 		}
 	}
+}
+
+// sentinelLost decides, after the watchdog of a poll has fired, whether the sentinel can
+// still arrive: it cannot if no fed input is left unread and every tcell goroutine
+// (reader, main loop, the poller inside PollEvent) is parked identically in two dumps
+// one second apart. Only meaningful while nothing else runs in the process.
+func (l *liveScreen) sentinelLost() (bool, string) {
+	if l.tty.Pending() != 0 {
+		return false, ""
+	}
+	s1, all1 := census.Parked(census.Dump(), nil)
+	time.Sleep(time.Second)
+	s2, all2 := census.Parked(census.Dump(), nil)
+	if all1 && all2 && len(s1) > 0 && strings.Join(s1, ",") == strings.Join(s2, ",") && l.tty.Pending() == 0 {
+		return true, strings.Join(s2, ", ")
+	}
+	return false, ""
+}
+
+// judgeSentinel is called right after a poll ended without its sentinel (before Fini):
+// lost input with the library structurally idle is a violation, anything else inconclusive.
+func (l *liveScreen) judgeSentinel(r *core.Run, ok bool, ctx string) {
+	if ok {
+		return
+	}
+	if lost, w := l.sentinelLost(); lost {
+		r.Violate("input:sentinel-lost", ctx+": every fed byte was read, yet the key fed last was never delivered and the library is idle ("+w+")", nil)
+		return
+	}
+	r.Inconclusive(ctx + ": sentinel not delivered")
 }
 
 func (l *liveScreen) fini() {
